@@ -332,13 +332,15 @@ def make_cases(ctx):
             cs.add('DataURI', 'direct', render(mts, mt, enc, pay, 'enc'))
     # with minifiers registered for the payload type (stub: id / shrinking / growing; real: css json svg;
     # literal, text/plain and pattern registrations); quick: a seeded third of the states
+    stub_types = ('text/x', 'text/plain')       # real minifiers run on documents (below), not on the byte product
     for (mt, enc, pay) in states:
-        if quick and rnd.random() > 0.34:
+        if quick and rnd.random() > 0.2:
             continue
         for mode in ('raw', 'enc'):
             u = render(mts, mt, enc, pay, mode)
-            for regs in STUBS_FOR.get(low_type(u), []):
-                cs.add('DataURI', 'direct', u, regs)
+            if low_type(u) in stub_types:
+                for regs in STUBS_FOR[low_type(u)]:
+                    cs.add('DataURI', 'direct', u, regs)
     # real minifiers on meaningful payloads, every media type spelling of that type, three spellings
     for (i, m) in enumerate(mts):
         t = low_type(b'data:' + m + b',')
@@ -369,14 +371,15 @@ def make_cases(ctx):
         for mode in ('raw', 'enc'):
             u = render(mts, mt, enc, pay, mode)
             cs.add('DataURI', 'direct', u)
-            for regs in STUBS_FOR.get(low_type(u), [])[:2]:
-                cs.add('DataURI', 'direct', u, regs)
+            if low_type(u) in stub_types:
+                for regs in STUBS_FOR[low_type(u)][:2]:
+                    cs.add('DataURI', 'direct', u, regs)
     # embedded channels: a seeded sample of the enumerated set
     pool = [s for s in states if s[2]]
     for (mt, enc, pay) in vlib.sample(pool, 1500 if quick else 20000, rnd):
         for mode in ('raw', 'enc'):
             u = render(mts, mt, enc, pay, mode)
-            regs = rnd.choice([[]] + STUBS_FOR.get(low_type(u), []))
+            regs = rnd.choice([[]] + (STUBS_FOR[low_type(u)] if low_type(u) in stub_types else []))
             embed(cs, u, regs, rnd)
     # malformed forms
     for u in [b'', b'data', b'data:', b'data:,', b'datx:x', b'data:text/css', b'DATA:,a', b'data:;base64', b'data:;base64,',
@@ -388,6 +391,18 @@ def make_cases(ctx):
         cs.add('DataURI', 'direct', u)
         for regs in STUBS_FOR['text/plain']:
             cs.add('DataURI', 'direct', u, regs)
+    # media type spellings around the default-parameter stripping, crossed with a few payloads
+    for m in [b'text/plain;charset=us-asciiz', b'text/x;charset=us-ascii-x;y=z', b'text/x;xcharset=us-ascii', b'text/x;charset=us-ascii ;y=z',
+              b'text/x;y=z;charset=us-ascii', b'text/x;y=z; CHARSET=US-ASCII ;w=v', b'text/x;charset=us-ascii;charset=us-ascii',
+              b'text/x;charset=utf-8;charset=us-ascii', b'text/x;charset=us-asci', b'text/x;acharset=us-ascii;charset=us-ascii',
+              b' text/plain ', b'text/plain ; charset=us-ascii', b'text/plai', b'text/pla;charset=us-ascii', b'text/x;a="b;c"',
+              b'text/x;a=b;', b'application/x-text/plain', b'x/text/plain;a=b', b'text/x;a=text/plain']:
+        for pay in (b'', b'a', b'a b', b'%23%23%23%23%23%23', b'<>'):
+            for b64 in (False, True):
+                u = b'data:' + m + (b';base64,' + base64.b64encode(pay) if b64 else b',' + pay)
+                cs.add('DataURI', 'direct', u)
+                cs.add('DataURI', 'direct', u, STUBS_FOR['text/x'][1])
+                embed(cs, u, [], rnd)
     ruris, rmts = repo_inputs()
     ctx.coverage['repo_test_inputs'] = len(ruris) + len(rmts)
     for u in ruris:
@@ -452,6 +467,18 @@ def describe(c, e, why):
                                       S(c['in']), 'PANIC' if e['panic'] else S(e['out']), '/'.join(why))
 
 
+def validate_alone(ctx, exe, cases, tag):
+    """every case in a harness process of its own; the recorded lines are validated by one TLC run"""
+    lines = []
+    for n, c in enumerate(cases):
+        lines += run_cases(ctx, exe, [dict(c, id=0)], '%s-alone%d' % (tag, n))
+    accepted, rejects = vlib.tlc_trace(ctx, 'C18Trace', 'C18Trace.cfg', [project(l) for l in lines], timeout=2400)
+    why = {}
+    for i, w in rejects:
+        why.setdefault(i, []).append(w)
+    return lines, why
+
+
 def confirm(ctx, exe, cases, rejects, tag):
     """re-run every rejected case alone (fresh process) and re-validate; returns the confirmed ones"""
     why = {}
@@ -460,12 +487,9 @@ def confirm(ctx, exe, cases, rejects, tag):
     if any('ORACLE' in w for ws in why.values() for w in ws):
         i = [i for i, ws in why.items() if 'ORACLE' in ws][0]
         raise vlib.Infra('TLA+ decoder and Go standard library disagree on %r (machinery)' % S(cases[i]['in']))
-    out = []
-    for n, i in enumerate(sorted(why)[:300]):
-        c = dict(cases[i], id=0)
-        lines2, acc2, rej2 = validate(ctx, exe, [c], '%s-rerun%d' % (tag, n))
-        if rej2:
-            out.append((cases[i], json.loads(lines2[0]), sorted(set(w for _, w in rej2))))
+    bad = sorted(why)[:400]
+    lines2, why2 = validate_alone(ctx, exe, [cases[i] for i in bad], tag)
+    out = [(cases[bad[k]], json.loads(lines2[k]), sorted(set(why2[k]))) for k in sorted(why2)]
     return out, len(why)
 
 
@@ -478,16 +502,16 @@ def run(ctx):
     for c, e, why in confirmed:
         ctx.report(ident(c), describe(c, e, why), replay_obj=e)
     # pinned witnesses of known findings: replayed on every run
-    pinned = vlib.known_cases('C18')
+    pinned = [case_from_ident(k) for k in vlib.known_cases('C18')]
     still = 0
-    for k in pinned:
-        c = case_from_ident(k)
-        l2, a2, r2 = validate(ctx, exe, [c], 'pinned%d' % still)
-        if r2:
-            still += 1
-            ctx.report(ident(c), describe(c, json.loads(l2[0]), sorted(set(w for _, w in r2))), replay_obj=json.loads(l2[0]))
-        else:
-            vlib.log('note: pinned witness no longer rejected (fixed?):', k.get('in'))
+    if pinned:
+        l2, why2 = validate_alone(ctx, exe, pinned, 'pinned')
+        for k, c in enumerate(pinned):
+            if k in why2:
+                still += 1
+                ctx.report(ident(c), describe(c, json.loads(l2[k]), sorted(set(why2[k]))), replay_obj=json.loads(l2[k]))
+            else:
+                vlib.log('note: pinned witness no longer rejected (fixed?):', S(c['in']))
     # ---- evidence
     nontrivial, samples, branch = set(), [], dict(unchanged=0, base64=0, percent=0, minifier_called=0, mediatype_changed=0)
     bytevals = set()
